@@ -7,11 +7,28 @@
 From KV Require Import Model.Base Model.Json Model.Schema.
 Local Open Scope list_scope.
 
+Record smode := mkMode { sm_req : bool; sm_rep : bool; sm_ro : bool; sm_wo : bool }.
+Definition md_plain : smode := mkMode false false true true.
+Definition md_of (st : settings) : smode :=
+  mkMode (st_asreq st) (st_asrep st) (negb (st_roOff st)) (negb (st_woOff st)).
+
+(* a property with this core may not carry a value in this reading *)
+Definition forbidden (md : smode) (pc : score) : bool :=
+  (sm_req md && c_readOnly pc && sm_ro md) || (sm_rep md && c_writeOnly pc && sm_wo md).
+(* a required property with this core need not be present in this reading *)
+Definition exempt (md : smode) (pc : score) : bool :=
+  (c_readOnly pc && sm_req md) || (c_writeOnly pc && sm_rep md).
+
 Section SPEC.
   Variable re_compiles : string -> bool.
   Variable re_match : string -> string -> bool.
   (* registered format validators (kind, format, value): None = no validator registered *)
   Variable fmt_ok : string -> string -> json -> option bool.
+
+  (* reading mode: plain, as a request (read-only properties must be absent and need not be
+     present even if required; write-only ones are allowed) or as a response (the converse);
+     sm_ro / sm_wo: the read-only / write-only exclusion checks are enabled *)
+  Variable md : smode.
 
   Definition fmt_pass (c : score) (kind : string) (v : json) : bool :=
     String.eqb (c_format c) "" ||
@@ -45,11 +62,12 @@ Section SPEC.
     match c_maxItems c with Some m => N.leb (N.of_nat (List.length l)) m | None => true end &&
     (negb (c_unique c) || json_nodup json_eqb l).
 
-  Definition obj_ok (c : score) (l : list (string * json)) : bool :=
+  Definition obj_ok (c : score) (l : list (string * json)) (props : list (string * score)) : bool :=
     permits c "object" &&
     N.leb (c_minProps c) (N.of_nat (List.length l)) &&
     match c_maxProps c with Some m => N.leb (N.of_nat (List.length l)) m | None => true end &&
-    forallb (fun k => str_in k (map fst l)) (c_required c).
+    forallb (fun k => str_in k (map fst l) ||
+                      match assoc k props with Some pc => exempt md pc | None => false end) (c_required c).
 
   Definition count_true (l : list bool) : nat := List.length (filter (fun b => b) l).
 
@@ -77,10 +95,11 @@ Section SPEC.
                 arr_ok c l &&
                 match it with Some its => forallb (fun x => satb its x) l | None => true end
             | JObj l =>
-                obj_ok c l &&
-                (* every declared property that is present satisfies its schema *)
+                obj_ok c l (map (fun kp => (fst kp, core_of (snd kp))) props) &&
+                (* every declared property that is present may be present in this reading and
+                   satisfies its schema *)
                 forallb (fun kp => match assoc (fst kp) l with
-                                   | Some x => satb (snd kp) x
+                                   | Some x => negb (forbidden md (core_of (snd kp))) && satb (snd kp) x
                                    | None => true
                                    end) props &&
                 (* every undeclared member is allowed and satisfies additionalProperties *)
